@@ -519,6 +519,15 @@ def apply_contract(self: Interp, key, selfv, args, kwargs, st: State, node):
         for r in c.requires:
             if "ghost." in r:
                 st.assume(self.contract_truth(r, st))
+        for i, r in enumerate(c.ghost_requires):
+            g = self.contract_truth(r, st)
+            saved_frame = self.frame
+            self.frame = caller_frame
+            try:
+                self.oblige(st, g, "P", f"call-pre[{key.split('::')[1]}#ghost{i}]", node)
+            finally:
+                self.frame = saved_frame
+            st.assume(g)
         frame.pre = st.fork()
         frame.pre.env = dict(env)
         # 2. raises clauses (ordered)
